@@ -1044,7 +1044,9 @@ func builtinHasKey(env *lisp.LEnv, args *lisp.LVal) *lisp.LVal {
 		if input.Type != lisp.LSortMap {
 			return lisp.ErrorConditionf(WrongType, "Input is not sorted map")
 		}
-		matched := false
+		// The type is optional: without one the constraint asks for the
+		// key's presence only.
+		matched := len(compares) == 0
 		// The !ok branch here is already the LOUD one: a map that cannot be
 		// searched for this key and a map that simply lacks it both fail.
 		// s:may-have-key's equivalent branch PASSES, which is why it needs the
@@ -1086,7 +1088,7 @@ func builtinMayHaveKey(env *lisp.LEnv, args *lisp.LVal) *lisp.LVal {
 		if input.Type != lisp.LSortMap {
 			return lisp.ErrorConditionf(WrongType, "Input is not sorted map")
 		}
-		matched := false
+		matched := len(compares) == 0 // the type is optional
 		val, ok := input.Map().Get(schemaKey(key))
 		if !ok {
 			// Get signals two different things through the same false: "no
